@@ -143,6 +143,7 @@ def run(ctx, rep):
             lb = lower_bound_parallelism(a)
         rep.ob('R15.3', 'division-guarded', lb is not None and lb >= 1, f'parallelism value >= {lb}')
     rep.floor('parallelism terms', len(avail_terms), 1)
+    failure_sites(ctx, rep)
 
     # ---- workers: same function, own element, one send -----------------------------------------------
     for wc in sorted(worker_closures):
@@ -193,6 +194,9 @@ def run(ctx, rep):
         if eng3.incomplete:
             rep.ob('engine', 'incomplete-collector', None, str(eng3.incomplete[:2]))
         collector_checks(rep, lv, appends)
+    # C14 is the other half of the argument (the work list is an exact cover): its partition and day-count rules are included
+    from . import shared
+    shared.include(ctx, rep, c14.run, {'R14.1', 'R14.3'}, why='partition(n) covers the range exactly')
 
 
 def collector_checks(rep, lv, appends):
@@ -248,4 +252,124 @@ def lower_bound_parallelism(a):
         return 1
     if E.is_const(a) and isinstance(E.cval(a), int):
         return E.cval(a)
+    return None
+
+
+THREAD_API = ('std::thread::available_parallelism', 'std::thread::scope', "std::thread::Scope::<'scope, 'env>::spawn",
+              "std::thread::ScopedJoinHandle::<'scope, T>::join", 'std::sync::mpsc::Receiver::<T>::recv',
+              'std::sync::mpsc::Sender::<T>::send', 'std::sync::mpsc::channel', 'std::sync::mpsc::Receiver::<T>::recv_timeout',
+              'std::sync::mpsc::Receiver::<T>::try_recv')
+NEEDS_POSITIVE = ('::step_by', '::chunks', '::chunks_exact', '::windows', '::rchunks')
+
+
+def failure_sites(ctx, rep, rule='R15.5'):
+    """Inventory of the failure sites of the range API outside the single-date computation (C07 covers that), each
+    discharged or reported.  The range API must work for every range, the empty one included."""
+    from . import c07
+    from ..facts import callee_name
+    lib = ctx.lib
+    blk = ctx.pub_fn('prayer_times_dt_rng_block')
+    dt = ctx.role('dt')
+    nd = ctx.pub_fn('num_days', 'DateRange')
+    part = ctx.pub_fn('partition', 'DateRange')
+    reach = {p for p in lib.reachable_from(blk) if p in lib.bodies} - set(ctx.reach(dt))
+    sites = c07.static_sites(ctx, reach)
+    rep.floor('failure sites of the range API', len(sites), 4)
+    # arguments of the calls that need a positive argument, as terms over (self, count)
+    posargs = {}
+    eng = ctx.engine()
+    eng.opaque.add(nd)
+
+    def hook(eng_, st, fr, t, name, args):
+        if name.endswith(NEEDS_POSITIVE) and len(args) >= 2:
+            posargs.setdefault((fr.body.path, fr.block), []).append(eng_.purify(st, args[-1]))
+        return None
+    eng.hooks['call'] = hook
+    eng.call_entry(part, eng.sym_args(part, ['self', 'count']))
+    days = ('app', nd, (('param', 'self'),))
+    n_arith = 0
+    for (p, bi, cls, n) in sites:
+        key = f'{last_seg(p)}:{cls}:{last_seg(n)}'
+        where = lib.bodies[p].blocks[bi]['term'].get('span')
+        if cls.startswith('assert:Overflow') or cls == 'chrono':
+            n_arith += 1            # integer / calendar range: numeric, not decided
+        elif cls == 'assert:DivisionByZero':
+            rep.ob(rule, key, True, 'divisor is the tested parallelism value, at least 1 (R15.3)', where=where)
+        elif cls == 'panicky-api' and n in THREAD_API:
+            rep.ob(rule, key, True, 'thread / channel primitive: fails only if a thread body fails (every site of the bodies is in this inventory)', where=where)
+        elif cls == 'panicky-api' and n.endswith(NEEDS_POSITIVE):
+            args = posargs.get((p, bi), [])
+            verdicts = []
+            for a in args:
+                # value of the argument for an empty range (num_days() = 0 is attained: C14 R14.1) and two parts
+                from .c17 import _val
+                v = _val_ext(a, {days: 0, ('param', 'count'): 2})
+                verdicts.append(v)
+            if args and all(v is not None and v >= 1 for v in verdicts):
+                rep.ob(rule, key, True, 'argument is positive even for an empty range', where=where)
+            elif any(v is not None and v < 1 for v in verdicts):
+                rep.ob(rule, key, False, f'`{last_seg(n)}` is called with {verdicts[0]:g} for an empty range (end before start): it panics, '
+                       'while the sequential API returns an empty map', where=where)
+            else:
+                rep.ob(rule, key, None, f'argument of `{last_seg(n)}` not evaluable for the empty range', where=where)
+        elif cls == 'unwrap':
+            b = lib.bodies[p]
+            t = b.blocks[bi]['term']
+            src = None
+            a0 = t['args'][0] if t.get('args') else None
+            l0 = (a0.get('place') or {}).get('l') if a0 else None
+            for bj, tt in b.calls():
+                if tt.get('dest', {}).get('l') == l0:
+                    src = callee_name(tt)
+            if src in THREAD_API:
+                rep.ob(rule, key, True, f'unwraps the result of `{last_seg(src)}`: Err only if the peer thread failed or the channel is closed '
+                       '(R15.1: the receiver outlives every Sender)', where=where)
+            else:
+                rep.ob(rule, key, None, f'unwrap of `{src}` in the range API not discharged', where=where)
+        else:
+            rep.ob(rule, key, None, f'failure site of class {cls} in the range API not discharged', where=where)
+    rep.note(f'{n_arith} integer-overflow / calendar-range checks of the range API are numeric: not decided')
+
+
+def _val_ext(t, env):
+    """numeric value of a term after substituting env; ceil / floor / casts / division understood"""
+    import math
+    from .common import const_f64
+    for k, v in env.items():
+        if t is k or t == k:
+            return float(v)
+    n = const_f64(t)
+    if n is not None:
+        return n
+    if not isinstance(t, tuple) or not t:
+        return None
+    if t[0] == 'cast':
+        v = _val_ext(t[2], env)
+        if v is None:
+            return None
+        return float(math.trunc(v)) if 'FloatToInt' in str(t[3] if len(t) > 3 else '') else v
+    if t[0] == 'app' and t[1] in ('ceil', 'floor') and len(t[2]) == 1:
+        v = _val_ext(t[2][0], env)
+        return None if v is None else float(math.ceil(v) if t[1] == 'ceil' else math.floor(v))
+    if t[0] == 'app' and t[1].endswith(('::max', '::min')) and len(t[2]) == 2:
+        a, b = _val_ext(t[2][0], env), _val_ext(t[2][1], env)
+        if a is None or b is None:
+            return None
+        return max(a, b) if t[1].endswith('max') else min(a, b)
+    if t[0] == 'bin':
+        a, b = _val_ext(t[2], env), _val_ext(t[3], env)
+        if a is None or b is None:
+            return None
+        op = t[1]
+        if op == 'Add':
+            return a + b
+        if op == 'Sub':
+            return a - b
+        if op == 'Mul':
+            return a * b
+        if op == 'Div' and b != 0:
+            return a / b
+    if t[0] == 'ite':
+        c = _val_ext(t[1], env)
+        return None
     return None
